@@ -847,7 +847,12 @@ class Model:
 
     def in_field_expect(self, e):
         f = e["spec"]
-        return self.arg_expect({"name": f["name"], "alias": None, "t": f["t"], "default": f["default"]})[2:]
+        d = f["default"]
+        if d is not None and d["kind"] == "unserializable" and d["src"] == "[]":
+            # input-field defaults are judged on their serialized *value* (an empty list holds nothing that needs the missing
+            # serializer: the default stays, as on the pinned tree); parameter defaults on the declared type (check_type)
+            d = {**d, "kind": "unhashable"}
+        return self.arg_expect({"name": f["name"], "alias": None, "t": f["t"], "default": d})[2:]
 
     # ---- expected reachable type map: name -> descriptor
     def expected_types(self):
